@@ -63,6 +63,14 @@ class Return(Exception):
         self.value = value
 
 
+class LoopContinue(Exception):
+    pass
+
+
+class LoopBreak(Exception):
+    pass
+
+
 class Raised(Exception):
     def __init__(self, text):
         self.text = text
@@ -86,7 +94,7 @@ class Evaluator(object):
     """
 
     def __init__(self, module, clsname=None, methods=None, functions=None,
-                 is_subclass=None, max_steps=20000):
+                 is_subclass=None, max_steps=20000, class_methods=None):
         self.module = module
         self.clsname = clsname
         self.methods = methods or {}
@@ -96,6 +104,8 @@ class Evaluator(object):
         self.max_steps = max_steps
         self.yielded = None
         self.iter_hook = None
+        # cls name -> {method name -> FunctionDef} for stand-in objects
+        self.class_methods = class_methods or {}
 
     # ------------------------------------------------------------------
 
@@ -186,10 +196,29 @@ class Evaluator(object):
                 if self.iter_hook is None:
                     self.err(st, 'iteration over an abstract object')
                 it = self.iter_hook(it)
-            for item in list(it):
+            for item in it:
                 self.assign(st.target, item, env)
-                self.block(st.body, env)
+                try:
+                    self.block(st.body, env)
+                except LoopContinue:
+                    continue
+                except LoopBreak:
+                    break
             return
+        if isinstance(st, ast.While):
+            while self.truth(self.expr(st.test, env), st.test):
+                self.tick(st)
+                try:
+                    self.block(st.body, env)
+                except LoopContinue:
+                    continue
+                except LoopBreak:
+                    break
+            return
+        if isinstance(st, ast.Continue):
+            raise LoopContinue()
+        if isinstance(st, ast.Break):
+            raise LoopBreak()
         if isinstance(st, ast.FunctionDef):
             env[st.name] = ('closure', st, env)
             return
@@ -268,8 +297,22 @@ class Evaluator(object):
         if isinstance(base, Obj):
             if base.has(e.attr):
                 return getattr(base, e.attr)
-            if env.get('self') is base and e.attr in self.methods:
-                return ('method', self.methods[e.attr], base)
+            if env.get('self') is base and e.attr in self.methods and \
+                    base.__dict__['_cls'] not in self.class_methods:
+                fd = self.methods[e.attr]
+                if any(isinstance(d, ast.Name) and d.id == 'property'
+                       for d in fd.decorator_list):
+                    ret, _ = self.call(fd, [], self_obj=base)
+                    return ret
+                return ('method', fd, base)
+            cm = self.class_methods.get(base.__dict__['_cls'], {})
+            if e.attr in cm:
+                fd = cm[e.attr]
+                if any(isinstance(d, ast.Name) and d.id == 'property'
+                       for d in fd.decorator_list):
+                    ret, _ = self.call(fd, [], self_obj=base)
+                    return ret
+                return ('method', fd, base)
             # class constants
             if env.get('self') is base and self.clsname:
                 try:
@@ -280,11 +323,13 @@ class Evaluator(object):
         if isinstance(base, RegexConst) and e.attr in ('match', 'sub',
                                                        'search'):
             return ('regex', base, e.attr)
-        if isinstance(base, str) and e.attr in ('startswith', 'endswith',
-                                                'strip'):
+        if isinstance(base, str) and e.attr in (
+                'startswith', 'endswith', 'strip', 'join', 'format', 'lower',
+                'upper', 'replace', 'split', 'lstrip', 'rstrip'):
             return ('pyfunc', getattr(base, e.attr))
         if isinstance(base, (list, set, dict)) and e.attr in (
-                'append', 'pop', 'add', 'get', 'extend'):
+                'append', 'pop', 'add', 'get', 'extend', 'update', 'keys',
+                'values', 'items', 'copy', 'setdefault', 'insert'):
             return ('pyfunc', getattr(base, e.attr))
         if isinstance(base, Unknown):
             return Unknown('%s.%s' % (base.what, e.attr))
@@ -387,6 +432,40 @@ class Evaluator(object):
     def x_BinOp(self, e, env):
         return self.binop(e.op, self.expr(e.left, env),
                           self.expr(e.right, env), e)
+
+    def _comp(self, e, env, emit):
+        out = []
+
+        def rec(gens, env):
+            if not gens:
+                out.append(emit(env))
+                return
+            g = gens[0]
+            it = self.expr(g.iter, env)
+            if isinstance(it, Obj):
+                if self.iter_hook is None:
+                    self.err(e, 'iteration over an abstract object')
+                it = self.iter_hook(it)
+            for item in list(it):
+                sub = dict(env)
+                self.assign(g.target, item, sub)
+                if all(self.truth(self.expr(c, sub), c) for c in g.ifs):
+                    rec(gens[1:], sub)
+        rec(e.generators, env)
+        return out
+
+    def x_ListComp(self, e, env):
+        return self._comp(e, env, lambda sub: self.expr(e.elt, sub))
+
+    def x_GeneratorExp(self, e, env):
+        return self._comp(e, env, lambda sub: self.expr(e.elt, sub))
+
+    def x_SetComp(self, e, env):
+        return set(self._comp(e, env, lambda sub: self.expr(e.elt, sub)))
+
+    def x_DictComp(self, e, env):
+        return dict(self._comp(e, env, lambda sub: (
+            self.expr(e.key, sub), self.expr(e.value, sub))))
 
     def x_Yield(self, e, env):
         self.yielded.append(self.expr(e.value, env) if e.value else None)
